@@ -75,6 +75,8 @@ def _op():
         st.fixed_dictionaries({"op": st.just("add_dup"), "var": i}),
         st.fixed_dictionaries({"op": st.just("remove"), "var": i}),
         st.fixed_dictionaries({"op": st.just("rename"), "var": i, "new": i}),
+        st.fixed_dictionaries({"op": st.just("rename"), "var": i, "new": i}),
+        st.fixed_dictionaries({"op": st.just("filter_dimensions"), "var": i, "keep": st.lists(st.booleans(), min_size=3, max_size=3)}),
         st.fixed_dictionaries({"op": st.just("filter"), "keep": st.lists(st.booleans(), min_size=6, max_size=6), "copy": st.booleans()}),
         st.fixed_dictionaries({"op": st.just("filter_dimensions"), "var": i, "keep": st.lists(st.booleans(), min_size=3, max_size=3)}),
         st.fixed_dictionaries({"op": st.just("extend"), "vars": st.lists(_var(), min_size=1, max_size=2), "how": st.sampled_from(["extend", "add_variables_from"])}),
@@ -247,6 +249,8 @@ def light_invariants(ds, m: Model, ctx, where):
     start = 0
     n2i = ds.names_to_indices
     ctx.check(set(n2i) == set(names), "views_indices", f"names_to_indices keys {list(n2i)} vs {names}", at=where)
+    # the mapping itself is a per-variable view: it is iterated (e.g. by filter_dimensions) in the variable order
+    ctx.check(list(n2i) == names, "views_indices", f"names_to_indices is ordered {list(n2i)}, variable order is {names}", at=where)
     for r in m.recs:
         rg = n2i[r.name]
         ctx.check(list(rg) == list(range(start, start + r.size)), "views_indices",
@@ -720,4 +724,4 @@ ORACLES = {"history": case_history}
 
 
 def run(ctx):
-    ctx.drive("history", histories(), case_history, quick=600, thorough=8000)
+    ctx.drive("history", histories(), case_history, quick=1200, thorough=8000)
